@@ -120,7 +120,7 @@ function run(code, timeout) {
 function litVal(src) {
   let v;
   try {
-    v = (0, eval)('(' + src + '\n)');
+    v = (0, eval)(src);
   } catch (e) {
     return 'err:' + ((e && e.name) || 'unknown');
   }
